@@ -94,8 +94,26 @@ def run_schedule(cfg, decisions=None, rng=None, p=0.0, maxr=0):
         sock = c.remote.sock
         for step in cfg["plan"]:
             sock.tx_plan.append(tuple(step) if isinstance(step, list) else step)
+        # queueing order: the put log of the connection's message queue when it is a queue.Queue (simulated here);
+        # for any other container the order is taken from the calls of add_out_msg - two calls that overlap in time
+        # may be transmitted in either order, a call that returned before another began comes first
+        from_log = all(isinstance(getattr(x, "_write_msg_queue", None), sk.SimQueue) for x in ncs)
+        calls = {id(x): [] for x in ncs}
+        tick = [0]
         for x in ncs:
-            x._write_msg_queue._put_log = []
+            if from_log:
+                x._write_msg_queue._put_log = []
+            else:
+                def wrapped(m, real=x.add_out_msg, log=calls[id(x)]):
+                    tick[0] += 1
+                    ev = {"m": m, "start": tick[0], "end": None}
+                    log.append(ev)
+                    try:
+                        return real(m)
+                    finally:
+                        tick[0] += 1
+                        ev["end"] = tick[0]
+                x.add_out_msg = wrapped
         msgs, expect = [], {}
         k = 0
         per_thread = []
@@ -135,12 +153,15 @@ def run_schedule(cfg, decisions=None, rng=None, p=0.0, maxr=0):
         ex.armed = False
         w.k.run()
         problems = []
-        n_queued = sum(len(x._write_msg_queue._put_log) for x in ncs)
+        n_queued = sum(len(x._write_msg_queue._put_log) if from_log else len(calls[id(x)]) for x in ncs)
         if n_queued != len(msgs):
             problems.append(("not-all-queued", f"{n_queued} of {len(msgs)} messages were queued"))
         for ci_ in range(nconns):
             got = cs[ci_].remote.received()[bases[ci_]:]
-            order = list(ncs[ci_]._write_msg_queue._put_log)
+            if from_log:
+                order = list(ncs[ci_]._write_msg_queue._put_log)
+            else:
+                order = _order_from_stream(got, calls[id(ncs[ci_])], expect)
             want = b"".join(expect[id(m)] for m in order if expect.get(id(m)) is not None)
             if got == want:
                 continue
@@ -163,6 +184,32 @@ def run_schedule(cfg, decisions=None, rng=None, p=0.0, maxr=0):
         return ex, problems
     finally:
         w.close()
+
+
+def _order_from_stream(got, calls, expect):
+    """The order in which the stream carries the queued messages, if it is one that the calls of add_out_msg allow
+    (every message whole and once; a call that returned before another one began comes first); otherwise the order
+    of the calls, which then fails the comparison."""
+    by_bytes = {}
+    for ev in calls:
+        b = expect.get(id(ev["m"]))
+        if b is not None:
+            by_bytes.setdefault(b, []).append(ev)
+    fallback = [ev["m"] for ev in calls]
+    seen, pos = [], 0
+    while pos < len(got):
+        ln = int.from_bytes(got[pos + 1:pos + 4], "big") if pos + 4 <= len(got) else 0
+        evs = by_bytes.get(bytes(got[pos:pos + ln])) if ln >= 20 else None
+        if not evs:
+            return fallback
+        seen.append(evs.pop(0))
+        pos += ln
+    for i, a in enumerate(seen):
+        for b in seen[i + 1:]:
+            if b["end"] is not None and b["end"] < a["start"]:
+                return fallback          # b was queued strictly before a, yet is transmitted after it
+    unencodable = [ev["m"] for ev in calls if expect.get(id(ev["m"])) is None]
+    return [ev["m"] for ev in seen] + unencodable + [ev["m"] for evs in by_bytes.values() for ev in evs]
 
 
 def shard_main(shard, nshards, tier, scale):
